@@ -3,7 +3,7 @@
 // streams are unchanged.
 //
 //   mono_harness knotscale <nproblems> <out> <stats.out>
-//   mono_harness ksreplay  <file with a P line followed by its KS line> <out>
+//   mono_harness ksreplay  <file with a P line followed by its KS line> <out> [<penK.out> <penC.out>]
 //
 // Theorem (Props/C10.lean, C10_knot_scale_equivariant): replace in dimension d the knots t by h_d*t, the abscissae x by
 // h_d*x and the smoothing lambda_d by lambda_d*h_d^(2 p_d) (p_d the penalty order): the Cox-de Boor basis values are
@@ -18,8 +18,35 @@
 //   P <problem words>                      the problem at scale 1 (shape = 20 + data class)
 //   KS <ndim> (<bits of h_d> <e_d>)*       the scale of every dimension; e_d = its binary exponent if h_d is a power of two, else 9999
 //   R <ncoef> <ok: 4 flags> (<m1> <u1> <mh> <uh>)*     float bits of: monotonic / unconstrained fit at scale 1, monotonic / unconstrained fit at scale h
+//
+// Penalty-matrix records (optional: `knotscale <n> <out> <stats> <npen> <penK.out> <penC.out>`, and always in `ksreplay <file> <out> <penK.out> <penC.out>`):
+// for every dimension of the first <npen> problems the real calc_penalty (glam.c) is called in-process with ndim = 1 on the knots at
+// scale 1 and on the rescaled knots, with mono = 1 and mono = 0:
+//   penK:  K <order> <porder> <nk> <knot bits>* <h bits> <nk> <scaled knot bits>*          (input of `psvdriver C10`)
+//   penC:  C <n> <status> <4 n^2 double bits: mono@1, plain@1, mono@h, plain@h, row-major>   (the code's DtD)
 #ifndef PSV_C10_KNOTSCALE_H
 #define PSV_C10_KNOTSCALE_H
+
+extern "C" cholmod_sparse* calc_penalty(uint64_t* nsplines, double* knots, uint32_t ndim, uint32_t dim, uint32_t order,
+                                        uint32_t porder, int mono, cholmod_common* c);
+
+// the code's penalty matrix of one dimension (ndim = 1: no Kronecker factors), dense row-major; false when CHOLMOD failed
+static bool ks_code_penalty(const std::vector<double>& knots, uint32_t order, uint32_t porder, int mono, std::vector<double>& out) {
+  cholmod_common c; cholmod_l_start(&c);
+  uint64_t ns = knots.size() - order - 1;
+  std::vector<double> k(knots);
+  cholmod_sparse* P = calc_penalty(&ns, k.data(), 1, 0, order, porder, mono, &c);
+  bool ok = P != nullptr && c.status == CHOLMOD_OK;
+  out.assign(ns * ns, std::numeric_limits<double>::quiet_NaN());
+  if (ok) {
+    cholmod_dense* D = cholmod_l_sparse_to_dense(P, &c);
+    ok = D != nullptr;
+    if (ok) { for (uint64_t i = 0; i < ns; i++) for (uint64_t j = 0; j < ns; j++) out[i * ns + j] = ((double*)D->x)[i + j * D->d]; cholmod_l_free_dense(&D, &c); }
+  }
+  if (P) cholmod_l_free_sparse(&P, &c);
+  cholmod_l_finish(&c);
+  return ok;
+}
 
 // data classes of this stream
 //  0 inactive: smooth positive increasing (1 + 3t + t^2/2)
@@ -132,12 +159,33 @@ static Problem ks_rescale(const Problem& p, const KsScale& sc) {
   return q;
 }
 
-static void ks_run(const Problem& p, const KsScale& sc, FILE* out, std::map<std::string, long>& stats) {
+static void ks_penalty_records(const Problem& p, const Problem& q, const KsScale& sc, FILE* fk, FILE* fcp, std::map<std::string, long>& stats) {
+  for (int d = 0; d < p.ndim; d++) {
+    fprintf(fk, "K %u %u %zu", p.order[d], p.porder[d], p.knots[d].size());
+    for (double k : p.knots[d]) fprintf(fk, " %llu", (unsigned long long)bits(k));
+    fprintf(fk, " %llu %zu", (unsigned long long)bits(sc.h[d]), q.knots[d].size());
+    for (double k : q.knots[d]) fprintf(fk, " %llu", (unsigned long long)bits(k));
+    fprintf(fk, "\n"); fflush(fk);
+    size_t n = p.knots[d].size() - p.order[d] - 1; int status = 0;
+    std::vector<double> m[4];
+    status |= ks_code_penalty(p.knots[d], p.order[d], p.porder[d], 1, m[0]) ? 0 : 1;
+    status |= ks_code_penalty(p.knots[d], p.order[d], p.porder[d], 0, m[1]) ? 0 : 2;
+    status |= ks_code_penalty(q.knots[d], p.order[d], p.porder[d], 1, m[2]) ? 0 : 4;
+    status |= ks_code_penalty(q.knots[d], p.order[d], p.porder[d], 0, m[3]) ? 0 : 8;
+    fprintf(fcp, "C %zu %d", n, status);
+    for (int f = 0; f < 4; f++) for (double v : m[f]) fprintf(fcp, " %llu", (unsigned long long)cbits(v));
+    fprintf(fcp, "\n"); fflush(fcp);
+    stats["ks_penalty_matrices"] += 4;
+  }
+}
+
+static void ks_run(const Problem& p, const KsScale& sc, FILE* out, std::map<std::string, long>& stats, FILE* fk = nullptr, FILE* fcp = nullptr) {
   fprintf(out, "%s\n", problem_line(p).c_str());
   fprintf(out, "KS %d", p.ndim);
   for (int d = 0; d < p.ndim; d++) fprintf(out, " %llu %d", (unsigned long long)bits(sc.h[d]), sc.e[d]);
   fprintf(out, "\n"); fflush(out);
   Problem q = ks_rescale(p, sc);
+  if (fk && fcp) ks_penalty_records(p, q, sc, fk, fcp, stats);
   Table t[4]; bool ok[4]; std::string err;
   ok[0] = do_fit(p, p.monodim, t[0], err);
   ok[1] = do_fit(p, Table::no_monodim, t[1], err);
@@ -156,6 +204,7 @@ static int ks_main(int argc, char** argv) {
   std::map<std::string, long> stats;
   if (std::string(argv[1]) == "ksreplay") {
     std::ifstream in(argv[2]); std::string line, pl; FILE* out = fopen(argv[3], "w");
+    FILE* fk = argc >= 6 ? fopen(argv[4], "w") : nullptr; FILE* fcp = argc >= 6 ? fopen(argv[5], "w") : nullptr;
     while (std::getline(in, line)) {
       if (line.compare(0, 2, "P ") == 0) { pl = line; continue; }
       if (line.compare(0, 3, "KS ") != 0 || pl.empty()) continue;
@@ -164,15 +213,17 @@ static int ks_main(int argc, char** argv) {
       KsScale sc; sc.h.resize(nd); sc.e.resize(nd);
       for (int d = 0; d < nd; d++) { uint64_t u; ks >> u >> sc.e[d]; sc.h[d] = from_bits(u); }
       if (!ks || nd != p.ndim) continue;
-      ks_run(p, sc, out, stats);
+      ks_run(p, sc, out, stats, fk, fcp);
     }
-    fclose(out); return 0;
+    fclose(out); if (fk) fclose(fk); if (fcp) fclose(fcp); return 0;
   }
   long n = atol(argv[2]);
   FILE* out = fopen(argv[3], "w");
+  long npen = argc >= 8 ? atol(argv[5]) : 0;
+  FILE* fk = npen ? fopen(argv[6], "w") : nullptr; FILE* fcp = npen ? fopen(argv[7], "w") : nullptr;
   Rng r(env_seed() * 0x2545F4914F6CDD1DULL + 3010);
-  for (long it = 0; it < n; it++) { KsScale sc; Problem p = gen_ks(r, it, stats, sc); ks_run(p, sc, out, stats); }
-  fclose(out);
+  for (long it = 0; it < n; it++) { KsScale sc; Problem p = gen_ks(r, it, stats, sc); bool pen = it < npen; ks_run(p, sc, out, stats, pen ? fk : nullptr, pen ? fcp : nullptr); }
+  fclose(out); if (fk) fclose(fk); if (fcp) fclose(fcp);
   std::ofstream fs(argv[4]);
   fs << "{"; bool first = true; for (auto& kv : stats) { fs << (first ? "" : ", ") << "\"" << kv.first << "\": " << kv.second; first = false; } fs << "}\n";
   return 0;
